@@ -82,13 +82,15 @@ def specs_for(ctx):
                          'wcs': 'CD', 'crval': (200.0, 45.0), 'beam': (45.0 / 3600, 30.0 / 3600, 30.0)}),
         ('pcrot', {'seed': rng.randrange(1 << 30), 'ncell': 3, 'cell': 24, 'nsrc': 9, 'kinds': cc.ELONGATED,
                    'rot': rng.choice([-1, 1]) * rng.randint(10, 40), 'wcs': 'PC'}),
+        # reference RA written as a negative angle (legal FITS: CRVAL1 = -5 for 355): wcslib then returns negative right ascensions
+        ('negra', {'seed': rng.randrange(1 << 30), 'ncell': 3, 'cell': 24, 'nsrc': 9, 'crval': (rng.choice([-5.0, -0.01, -180.0]), -30.0)}),
         ('medSIN', dict(med, seed=rng.randrange(1 << 30), cdelt=0.25, beam=(0.75, 0.75, 0.0), proj='SIN')),
         ('medTAN', dict(med, seed=rng.randrange(1 << 30), cdelt=0.2, beam=(0.6, 0.6, 0.0), proj='TAN', crval=(20.0, 50.0))),
     ]
     for k in range(4 if quick else 40):
         kinds = [rng.choice(cc.KINDS) for _ in range(9)]
         out.append((f'rand{k}', {'seed': rng.randrange(1 << 30), 'ncell': 3, 'cell': rng.choice([20, 24, 28]), 'nsrc': rng.randint(1, 9),
-                                 'kinds': kinds, 'crval': (rng.choice([10.0, 150.0, 359.99, 200.0]), rng.choice([-70.0, -30.0, 0.0, 45.0, 80.0])),
+                                 'kinds': kinds, 'crval': (rng.choice([10.0, 150.0, 359.99, 200.0, -5.0]), rng.choice([-70.0, -30.0, 0.0, 45.0, 80.0])),
                                  'edge': rng.random() < 0.3, 'nanblock': rng.random() < 0.3,
                                  'beam': rng.choice([(30.0 / 3600, 30.0 / 3600, 0.0), (45.0 / 3600, 30.0 / 3600, 30.0)])}))
     if not quick:
@@ -899,6 +901,8 @@ def search(ctx):
         dense = k % 2 == 0
         spec = {'seed': rng.randrange(1 << 30), 'ncell': rng.choice([3, 5]), 'cell': 12 if dense else 24, 'nsrc': rng.randint(3, 25),
                 'kinds': [rng.choice(cc.KINDS) for _ in range(8)], 'edge': rng.random() < 0.3, 'nanblock': rng.random() < 0.3}
+        if k % 3 == 1:
+            spec['crval'] = (rng.choice([-5.0, -0.01, 359.99, 0.02]), rng.choice([-30.0, 45.0]))
         path = os.path.join(ctx.work, 'search.fits')
         img = cc.write_spec_image(spec, path)
         job = {'mode': 'blind', 'spec': spec, 'island': True}
